@@ -56,6 +56,8 @@ inductive RPc where
   /-- woke the first `k`; about to `lock` again to merge `rest` with new registrations;
   `left` = free slots not yet given away -/
   | lock2 (rest : List Nat) (left : Nat)
+  /-- `Ring::poll(None)`: inside `io_uring_enter`, waiting for a completion -/
+  | waiting
   deriving Repr, DecidableEq
 
 structure St where
@@ -72,6 +74,12 @@ structure St where
   woken : List Nat := []
   /-- GHOST (read by no step): every registration of a waker, in order -/
   pushed : List Nat := []
+  /-- the `Ring::poll` call in progress (or the last one) has no timeout -/
+  inf : Bool := false
+  /-- decided at the start of the call (`Completions::poll`, cq.rs): this call may wait for
+  a completion — no timeout, and (fix d4303dd) no future was waiting for a submission slot
+  when the blocked list was looked at -/
+  block : Bool := false
   deriving Repr
 
 def setF (s : St) (i : Nat) (pc : FPc) : St := { s with f := s.f.set i pc }
@@ -103,10 +111,14 @@ def stepF (s : St) (i : Nat) : St :=
 def stepR (s : St) : St :=
   match s.r with
   | .idle => s
-  | .start => { s with r := .enter (s.T - s.H) }
+  | .start =>
+    -- `has_blocked_futures()` (d4303dd): with futures waiting for a slot the call does not wait
+    { s with r := .enter (s.T - s.H), block := s.inf && s.blocked.isEmpty }
   | .enter n =>
-    -- the kernel consumes `min n pending`; nothing completes: ETIME / Ok(n); both wake
-    { s with H := s.H + min n (s.T - s.H), r := .w1 }
+    -- the kernel consumes `min n pending`; nothing completes: a call with a timeout returns
+    -- (ETIME / Ok(n); both wake), a call without one stays in the kernel
+    { s with H := s.H + min n (s.T - s.H), r := if s.block then .waiting else .w1 }
+  | .waiting => s
   | .w1 => { s with r := .w2 s.H }
   | .w2 h =>
     let avail := s.len - (s.T - h)
@@ -123,10 +135,20 @@ def stepR (s : St) : St :=
     { s with blocked := rest ++ n.drop (n.length - j),
              woken := s.woken ++ n.take (n.length - j), r := .idle }
 
-/-- A new `Ring::poll` call. -/
-def startPoll (s : St) : St :=
+/-- A new `Ring::poll` call, with a timeout (`inf = false`) or without one. -/
+def startPollT (s : St) (inf : Bool) : St :=
   match s.r with
-  | .idle => { s with r := .start }
+  | .idle => { s with r := .start, inf := inf }
+  | _ => s
+
+/-- A new `Ring::poll(Some(_))` call. -/
+def startPoll (s : St) : St := startPollT s false
+
+/-- Some completion arrives (anything: an unrelated operation): a waiting `io_uring_enter`
+returns and the call goes on to wake the blocked futures. -/
+def stepIo (s : St) : St :=
+  match s.r with
+  | .waiting => { s with r := .w1 }
   | _ => s
 
 /-- A future that returned `Pending` for lack of a slot is polled again (after
@@ -160,6 +182,7 @@ def showR : RPc → String
   | .w2 _ => "at-w-ld-tail"
   | .tryLock _ => "at-try-lock"
   | .lock2 _ _ => "at-lock2"
+  | .waiting => "waiting"
 
 def showState (s : St) : String :=
   s!"H={s.H} T={s.T} woken={showNatList s.woken}"
@@ -187,6 +210,14 @@ def stepLine (s : St) (toks : List String) : St × List String :=
   | ["blk", "poll"] =>
     match s.r with
     | .idle => let s' := startPoll s; (s', [s!"r {showR s'.r} {showState s'}"])
+    | _ => (s, ["bad-op"])
+  | ["blk", "pollinf"] =>
+    match s.r with
+    | .idle => let s' := startPollT s true; (s', [s!"r {showR s'.r} {showState s'}"])
+    | _ => (s, ["bad-op"])
+  | ["blk", "io"] =>
+    match s.r with
+    | .waiting => let s' := stepIo s; (s', [s!"r {showR s'.r} {showState s'}"])
     | _ => (s, ["bad-op"])
   | ["blk", "r"] =>
     match s.r with
